@@ -482,8 +482,11 @@ ASSUME = {
                      "handshake line = JSON object with a numeric terminal_width (the quantifier's 'every terminal width')"],
     "C17": COMMON + ["lexing of decimal/literal/dotted-path strings is Python's (tokens are structured in the theorem); "
                      "validated only by the differential run",
-                     "canonical fragment: one run of positionals, options before/after it, exact option strings; lines "
-                     "the model declares outside are not sent in this check",
+                     "canonical fragment: one run of positionals, options before/after it; long options in full, as "
+                     "unambiguous abbreviations (argparse's allow_abbrev), with the value behind a blank or behind `=`; "
+                     "ambiguous abbreviations and `--flag=value` are error verdicts; still outside: `--`, `-c=v`, `-ab`, "
+                     "`--name=--`, unknown long strings before the command word; lines the model declares outside are "
+                     "not sent in this check (counters form:*: how many lines used each form / were judged inside)",
                      "bool parameters are store_true flags whose absent value is False (the pool classes' own default)"],
     "C18": COMMON + ["partial: 'argparse returns a verdict for EVERY string without raising, printing or exiting' is sampled, "
                      "not proved", "text lines are valid UTF-8 without line breaks"],
